@@ -40,7 +40,20 @@ pub fn load() -> Vec<Finding> {
 	out
 }
 
+/// In-process variant used by workers for every violation instance.
+pub fn attribute_in_process(def: &PropDef, findings: &[Finding], case: &J, class: &str) -> Option<String> {
+	for f in findings.iter().filter(|f| f.property == def.id && f.status == "open") {
+		let Some(neutral) = crate::rules::neutralise(&f.rule, def.id, case) else { continue };
+		let ev = (def.eval)(&neutral);
+		if !ev.violations.iter().any(|v| v.class == class) {
+			return Some(f.id.clone());
+		}
+	}
+	None
+}
+
 /// Returns the id of the open finding this violation instance belongs to, if any.
+#[allow(dead_code)]
 pub fn attribute(def: &PropDef, findings: &[Finding], case: &J, class: &str) -> Option<String> {
 	for f in findings.iter().filter(|f| f.property == def.id && f.status == "open") {
 		let Some(neutral) = crate::rules::neutralise(&f.rule, def.id, case) else { continue };
